@@ -95,6 +95,16 @@ def tracker(pid, n_quick=160, n_thorough=3000):
 for _p in ("C01", "C02", "C04", "C09", "C16"):
     tracker(_p)
 
+SPECS["C01"].assumptions = SPECS["C01"].assumptions + [
+    "which sshd PID a login carries is part of C01's obligations: C01_login_pid_is_record_first_column / C01_tracker_login_pid_is_record_first_column / "
+    "C01_framed_record_login (Proofs/RecordLogin.v) compose the translations regenerated from SyslogIngester.Process / ParseSyslogMessage (Gen/PureFuncs.v) and "
+    "ProcessSshdLogEntry (Gen/EntryMetrics.v) with the sshd model: for every record, a forwarded login carries strconv.Atoi of the record's first column; the "
+    "abstraction of a forwarded login to the correlator's login is Model/PipelineSshd.v's abs_login",
+    "daemon stage, hostile client-chosen text (harness/daemon/hostile.go): user names of failure lines and key ids of certificate logins that look like an accepted-login "
+    "record of another session's sshd process (syslog tags, PID column, timestamp + host prefixes, CR and other would-be record breaks), before / after that session's "
+    "LOGIN record and genuine login; key ids stay inside C06's no_ssh_frag domain; the identity oracle is unchanged (a forged name is recorded as a name)",
+]
+
 SSHD_ASSUME = [
     "bytes vs runes: every class of the generated regexes contains all or no non-ASCII runes; a single-character item over a class WITH them that is not the head of x+ is the rune item IRune "
     "(one utf8.DecodeRuneInString step; the final `.` of reverseMappingCheckFailedRE / doesNotMapBackToAddrRE), all other items are byte items; go2v refuses (UNSUPPORTED) a pattern that is not "
@@ -116,7 +126,7 @@ def slow_handoff(pid, delays):
     return ["-prop", pid, "-mode", "slow", "-delays", ",".join(str(d) for d in delays)]
 
 
-SLOW_ASSUME = ("slow hand-off stage (C05): after the event is written nobody receives on the unbuffered logins channel for 0.15-1.5 s (quick), "
+SLOW_ASSUME = ("slow hand-off stage (C05; the same stage with their own oracles for C10 and C19): after the event is written nobody receives on the unbuffered logins channel for 0.15-2.5 s (quick), "
                "up to 31 s (thorough) or up to 61 s (search after a broken obligation) while the context stays live; then exactly one login must be there; "
                "real time is observed, not modelled (the model's hand-off is taken or cancelled, never timed)")
 
@@ -144,9 +154,15 @@ def sshd(pid, n_quick=360, n_thorough=6000):
         search_extra = [("sshd", {}, stalled_writer(pid, [2500, 5500, 11000, 31000]), False)]
         assume.append(STALL_ASSUME)
     if pid == "C05":
-        extra = [("sshd", {}, slow_handoff(pid, [150, 1500, 6500, 12000, 31000]), False, slow_handoff(pid, [150, 700, 1500]))]
-        search_extra = [("sshd", {}, slow_handoff(pid, [1500, 6500, 12000, 31000, 61000]), False)]
+        extra = [("sshd", {}, slow_handoff(pid, [150, 1500, 2500, 6500, 12000, 31000]), False, slow_handoff(pid, [150, 700, 2500]))]
+        search_extra = [("sshd", {}, slow_handoff(pid, [1500, 2500, 6500, 12000, 31000, 61000]), False)]
         assume.append(SLOW_ASSUME)
+    if pid == "C19":
+        # the same stage judged by C19's own oracle: one increment per emitted event while a hand-off is pending
+        extra = [("sshd", {}, slow_handoff(pid, [150, 2500, 6500, 12000]), False, slow_handoff(pid, [150, 2500]))]
+        search_extra = [("sshd", {}, slow_handoff(pid, [2500, 6500, 12000, 31000]), False)]
+        assume.append("slow hand-off stage (harness/sshd -mode slow, shared with C05 / C10): while nobody takes an accepted login for 0.15-2.5 s (quick), up to 12 s (thorough), "
+                      "up to 31 s (search) the counter must have moved exactly once per emitted event, under the success outcome; real time is observed, not modelled")
     reg(Spec(
         pid, "Props/%s.v" % pid, harness="sshd",
         args_quick=["-prop", pid, "-n", str(n_quick)],
@@ -214,11 +230,16 @@ sshd("C06")
 
 reg(Spec(
     "C10", "Props/C10.v", harness="pipeline", race=True,
-    thorough_extra=daemon_extra("C10", 60, 600) + [("jsonenc", {}, ["-n", "700"], False, ["-n", "60"])],
+    # third stage: harness/sshd -mode slow judged by C10's oracle (hand-offs nobody takes for 0.15 s ... 12 s: the line's event
+    # exactly once, whole JSON, written before the hand-off completes); cases run concurrently, the stage lasts as long as its longest wait
+    thorough_extra=daemon_extra("C10", 60, 600) + [("jsonenc", {}, ["-n", "700"], False, ["-n", "60"]),
+                                                   ("sshd", {}, slow_handoff("C10", [150, 700, 2500, 6500, 12000]), False, slow_handoff("C10", [150, 700, 2500]))],
+    search_extra=[("sshd", {}, slow_handoff("C10", [2500, 6500, 12000, 31000]), False)],
     extra_targets=["Model/JsonEncCheck.vo"],
-    args_quick=["-n", "60"],
-    args_thorough=["-n", "1500"],
-    args_search=["-n", "400"],
+    # -stalls: scenarios in which the audit side is slow to take logins (one UserAction write stalls that many ms); run concurrently
+    args_quick=["-n", "60", "-stalls", "2500,2800,3300"],
+    args_thorough=["-n", "1500", "-stalls", "2500,3000,4500,6500,9000,12000"],
+    args_search=["-n", "400", "-stalls", "2500,3500,6500,12000"],
     assumptions=[
         "A-append, what is left of it: that the kernel does not interleave single write(2) calls on the O_APPEND output file is observed (built daemon, events file read back), not proved",
         "JSON rendering (Model/JsonEnc.v, stage jsonenc): the text of an event is MODELLED (encoding/json appendString over utf8.DecodeRuneInString, sorted maps, omitempty, trailing newline) and PROVED, for all field contents, to be one line ending in its only newline (C10_json_one_line, C10_json_lines_split), to read back field by field (C10_json_string_roundtrip, C10_json_parse_event) and not to depend on map insertion order; the model is compared byte for byte with the real writer on every run, incl. events written by the real sshd processor and the real correlator; 'one Encode = one Write call' is observed by the recording writer on every event",
@@ -226,6 +247,10 @@ reg(Spec(
         "the hand-off happens only after the UserLogin was written (wf_run): an assumption of C10_causal over free runs, PROVED for combined runs (C10_combined_run_wf, Model/PipelineSshd.v: records processed sequentially by SshdProc.process, rendez-vous hand-off, Read's loop holding at most one login, any schedule); C10_causal_combined / C10_once_combined carry no such hypothesis",
         "combined runs: a login is abstracted to (record index, forwarded PID, handler clock, credential id non-empty); cleanups may fall between a rendez-vous and its RemoteLogin (more interleavings than the code has)",
         "correlator calls are atomic (C03); the tracker component of a pipeline run is the sequential correlator on the run's own history",
+        "time in the hand-off path: the model's hand-off is a rendez-vous without clock; that nothing is written AGAIN (and nothing else happens to the output) while a hand-off is pending is checked on the "
+        "real code for waits of several magnitudes - harness/sshd -mode slow (nobody receives for 0.15 / 0.7 / 2.5 s quick, up to 12 s thorough, up to 31 s as search) and harness/pipeline scenarios in which the "
+        "audit side is slow to take logins (the writer stalls one UserAction write for 2.5-3.7 s quick, up to 12.4 s thorough, under the correlator's lock, while accepted lines arrive); oracle: one UserLogin per accepted line, "
+        "one whole JSON line per write, UserLogin before the hand-off completes / before any UserAction of that identity",
         DAEMON_ASSUME,
         "large events (both stages): execve events whose argument list makes the UserAction line 3-70 KiB, account names / certificate key ids of some KiB (UserLogin lines beyond one page, and every "
         "UserAction of such a session: many short audit records, each a large output line). Daemon stage, every fourth scenario: while the audit pipeline works through these the harness keeps a burst of "
@@ -271,7 +296,10 @@ reg(Spec("C08", "Props/C08.v", harness="workers", overlay={},
     assumptions=[
       "daemon = errgroup over group_workers; a daemon round = one fair round of every worker under the same group context; that a returned error or a signal cancels it for good by the end of the round, and that Wait returns non-nil iff a worker failed, is no longer a stated rule of Model/Workers.v alone: every round of the composite (workers + errgroup machine, Model/ErrgroupDaemon.v: a round of every worker, then three fair rounds of the group's own threads) is PROVED to be such a daemon round (C08_errgroup_round_is_dround, C08_errgroup_daemon_simulation / _exit / _fail_stop)",
       "signal delivery, log.Fatalln's status 1, the kernel FIFO and 'buffer full' under load (writer floods 1.2 s, >40k lines vs 10000 slots) are runtime facts observed on the built binary (bound 5 s)",
-      "optional HTTP/metrics workers are listed, not modelled; that their flags default to false is generated and proved (C08_optional_workers_off_by_default)",
+      "optional HTTP/metrics workers: their goroutines are generated and stated per flag valuation (C08_http_server_goroutines_from_source, C08_audit_metrics_ticker_from_source, C08_optional_workers_off_by_default); what "
+      "net/http's Shutdown / ListenAndServe do is not modelled - observed on the built binary (harness/workers/c08_http.go): every flag valuation that starts an optional worker, HTTP clients in every connection state at the moment "
+      "of the stop cause (none, fresh, idle keep-alive, request half sent, pipelined requests whose responses are not read / read slowly so that a handler blocks in Write, 40 connections), both signals, every worker failure and "
+      "the HTTP worker's own (port taken); bound 5 s. The server's address is fixed in the source (:2112): these scenarios run one at a time under a machine-wide lock file and are skipped with a note when a foreign process holds the port",
       "exit status: Workers.exited's 1/0 is tied to func main as interpreted from main.go (C08_exit_status_from_source); log.Fatal* = 1 and os.Exit(n) = n are the interpreter's reading of the standard library"],
     modelled=WORKERS_MODELLED, extra_targets=["Model/ErrgroupCheck.vo"]))
 
